@@ -1057,4 +1057,37 @@ func afVarSetByte(old AdaptationField, at, n int, data []byte, j int) byte {
 //@   ensures afFlag(af, 0x01) && afExtLen(af) > 1 ==> &data[0] == &af[afExtStart(af)+1]
 //@   modifies nothing
 
+// ---- copying a whole adaptation field, creating one
+
+// afCopiedByte: SetAdaptationField copies src's flags and optional fields [5, ce(src)) over dst
+// and restuffs the rest of dst's field.
+func afCopiedByte(dst AdaptationField, src AdaptationField, j int) byte {
+	sce := afContentEnd(&src)
+	if 5 <= j && j < sce {
+		return src[j]
+	}
+	if sce <= j && j < afEnd(&dst) {
+		return 0xff
+	}
+	return dst[j]
+}
+
+//@ func (p *Packet) SetAdaptationField(af *AdaptationField) error
+//@   props C03
+//@   paths
+//@   cases af[5] bits 0x1f
+//@   requires p != nil && af != nil && specAFC(p)/2 == 1 ==> afCanonical((*AdaptationField)(p))
+//@   requires p != nil && af != nil && afCanonical(af) && verifSeparate(p, af)
+//@   ensures old(specAFC(p))/2 == 0 ==> result == gots.ErrNoAdaptationField && specBytesSame(p, old(*p), 0, 188)
+//@   ensures old(specAFC(p))/2 == 1 && afContentEnd(af) > old(afEnd((*AdaptationField)(p))) ==> result == gots.ErrAdaptationFieldTooLarge && specBytesSame(p, old(*p), 0, 188)
+//@   ensures old(specAFC(p))/2 == 1 && afContentEnd(af) <= old(afEnd((*AdaptationField)(p))) ==> result == nil
+//@   ensures old(specAFC(p))/2 == 1 && result == nil ==> forall j in 0..188 :: p[j] == afCopiedByte(AdaptationField(old(*p)), *af, j)
+//@   modifies *p
+
+//@ func NewAdaptationField() *AdaptationField
+//@   props C03
+//@   ensures result != nil && fresh(result)
+//@   ensures result[0] == 0x47 && result[3] == 0x20 && result[4] == 183 && result[5] == 0 && afCanonical(result)
+//@   modifies nothing
+
 var _ = gots.ErrNoPayload
